@@ -175,10 +175,10 @@ rb_op(int argc, char **argv)
         rbdata = malloc(cap * es);
         memset(rbdata, 0xee, cap * es);
         switch (rbtype) {
-        case 0: octet_ring_init(&r0, rbdata, cap); break;
-        case 1: ring8_init(&r1, rbdata, cap); break;
-        case 2: ring16_init(&r2, rbdata, cap); break;
-        default: ring32_init(&r3, rbdata, cap); break;
+        case 0: memset(&r0, 0xa5, sizeof r0); octet_ring_init(&r0, rbdata, cap); break;
+        case 1: memset(&r1, 0xa5, sizeof r1); ring8_init(&r1, rbdata, cap); break;
+        case 2: memset(&r2, 0xa5, sizeof r2); ring16_init(&r2, rbdata, cap); break;
+        default: memset(&r3, 0xa5, sizeof r3); ring32_init(&r3, rbdata, cap); break;
         }
     } else if (rbdata == NULL) {
         printf("bad-op");
